@@ -111,3 +111,28 @@ def record_offpolicy(cache: tb.EnvCache, cfg: dict, algo_name: str, iters: int, 
         snap(it + 1, state)
     return [{"cfg": cfg, "cap": caps[e], "events": streams[e], "meta": {"algo": algo_name, "env": e, "N": N}}
             for e in range(N)]
+
+
+def warmup_count_case(cache: tb.EnvCache, cfg: dict, algo_name: str, seed: int) -> dict:
+    """Warm-ups LONGER than the whole buffer (learning_starts > buffer_size): the rows written first are overwritten before they
+    can be read back, so these configurations cannot be validated row by row; what remains observable is judged as atoms -
+    the per-environment insertion counter after reset() and after one iteration, and the number of steps the callbacks were told."""
+    env = cache.get(cfg)
+    N = cfg["N"]
+    policy = tb.TableACPolicy(env, cfg)
+    algo = make_algo(algo_name, cfg["bufsize"], cfg["lstarts"], N, cfg["nsteps"])
+    logcb, backend = logging_callback(cfg.get("an", 2))
+    cb = CallbackList([Recorder(), logcb])
+    k0, k1 = jr.split(jr.key(seed))
+    clear_records(backend)
+    state = _reset(algo, env, policy, k0, cb)
+    pos0 = [int(p) for p in np.asarray(state.step_state.buffer.position).reshape(-1)]
+    told0 = [int(p) for p in np.asarray(state.step_state.callback_state.states[0].n).reshape(-1)]
+    state = _iteration(algo, state, k1, cb)
+    pos1 = [int(p) for p in np.asarray(state.step_state.buffer.position).reshape(-1)]
+    ls, S = cfg["lstarts"], cfg["nsteps"]
+    atoms = {"WarmUpStoresExactlyLearningStartsTransitionsPerEnvironment": len(pos0) == N and all(p == ls for p in pos0),
+             "CallbacksAreToldEveryWarmUpStep": len(told0) == N and all(t == ls for t in told0),
+             "EveryIterationAddsNumStepsPerEnvironment": len(pos1) == N and all(p == ls + S for p in pos1)}
+    return {"atoms": atoms, "meta": {"algo": algo_name, "N": N, "buffer_size": cfg["bufsize"], "learning_starts": ls, "num_steps": S,
+                                     "position_after_reset": pos0, "steps_told_to_callbacks": told0, "position_after_one_iteration": pos1}}
